@@ -35,13 +35,14 @@ Names == IF Tier = "quick" THEN NamesQuick ELSE NamesThorough
 
 DirsBase == {N_m, N_game, N_ab, N_atE, N_ddx, N_sp}
 Dirs2 == IF Tier = "quick" THEN { <<N_m, N_atE>>, <<N_ab, N_m>>, <<N_sp, N_game>>, <<N_ddx, N_sp>>, <<N_bs, N_m>>, <<N_m, N_bsg>> }
-         ELSE { <<a, b>> : a, b \in DirsBase } \cup { <<N_bs, N_m>>, <<N_m, N_bsg>>, <<N_long, N_tdot>>, <<N_eu, N_S>> }
+         ELSE { <<a, b>> : a \in {N_m, N_ab, N_sp}, b \in {N_atE, N_game, N_ddx} }
+              \cup { <<N_bs, N_m>>, <<N_m, N_bsg>>, <<N_long, N_tdot>>, <<N_eu, N_S>> }
 Dirs3 == { <<N_m, N_ab, N_atE>>, <<N_sp, N_m, N_sp>> }
 
 Rel(c, t) == [a |-> FALSE, c |-> c, t |-> t]
 PlainPaths ==
   { Rel(<<f>>, t) : f \in Names, t \in BOOLEAN }
-  \cup { Rel(<<d, f>>, t) : d \in Names, f \in Names, t \in BOOLEAN }
+  \cup { Rel(<<d, f>>, t) : d \in NamesQuick, f \in Names, t \in BOOLEAN }
   \cup { Rel(d \o <<f>>, t) : d \in Dirs2, f \in Names, t \in BOOLEAN }
   \cup { Rel(d \o <<f>>, t) : d \in Dirs3, f \in Names, t \in BOOLEAN }
 Abs(c, t) == [a |-> TRUE, c |-> c, t |-> t]
